@@ -179,9 +179,15 @@ func (interp *Interpreter) importSrc(rPath, importPath string, skipTest bool) (n
 	}
 	interp.run(n, nil)
 
-	// Add main to list of functions to run, after all inits.
+	// Add main to list of functions to run, after all inits, if it is declared in these sources:
+	// a main function defined by a previous evaluation has already run.
 	if m := gs.sym[mainID]; pkgName == mainID && m != nil && skipTest {
-		initNodes = append(initNodes, m.node)
+		for _, root := range rootNodes {
+			if m.node.hasAnc(root) {
+				initNodes = append(initNodes, m.node)
+				break
+			}
+		}
 	}
 
 	for _, n := range initNodes {
